@@ -1179,6 +1179,11 @@ class Machine:
                 return d.get(key, args[1] if len(args) > 1 else None)
             dict_get._pyvc_callee = True
             return dict_get
+        gh = getattr(self.c, "getattr_hook", None)
+        if gh is not None and not isinstance(base, SuperProxy):
+            r = gh(self, base, attr)
+            if r is not NotImplemented:
+                return r
         if isinstance(base, Ref) and base.kind == "obj":
             if (base.id, attr) in self.heap:
                 return self.heap[(base.id, attr)]
@@ -1634,6 +1639,9 @@ class Machine:
                 if isinstance(base, Ref) and base.kind == "ext":
                     self.heap[(base.id, "impl")].delitem(self, base, key)
                     continue
+                h = getattr(self.c, "delitem_hook", None)
+                if h is not None and h(self, base, key) is not NotImplemented:
+                    continue
             raise Unsupported("del of %s" % ast.dump(t)[:60])
 
     def s_Assign(self, node):
@@ -1656,6 +1664,9 @@ class Machine:
                 self.assign(e, x)
         elif isinstance(t, ast.Attribute):
             base = self.eval(t.value)
+            h = getattr(self.c, "setattr_hook", None)
+            if h is not None and h(self, base, t.attr, v) is not NotImplemented:
+                return
             if isinstance(base, Ref) and base.kind == "obj":
                 fields = self.heap[(base.id, "__fields__")]
                 if t.attr not in fields:
